@@ -133,7 +133,7 @@ def _guarded(clause, case, stats):
 
 def _run_hypothesis(mod, clause, tier, seedv, shard, nshards, examples):
   import hypothesis
-  from hypothesis import given, settings, HealthCheck, Phase, seed
+  from hypothesis import given, settings, HealthCheck, Phase, seed, Verbosity
   from hypothesis.internal.conjecture import engine
   engine.MAX_SHRINKING_SECONDS = 25 if tier == "quick" else 90
   stats = _Stats()
@@ -148,6 +148,7 @@ def _run_hypothesis(mod, clause, tier, seedv, shard, nshards, examples):
   test = seed(mix(seedv, mod.ID, clause.name, shard, nshards))(test)
   test = settings(max_examples=examples, database=None, deadline=None,
                   derandomize=False, report_multiple_bugs=False,
+                  verbosity=Verbosity.quiet,
                   suppress_health_check=[HealthCheck.too_slow,
                                          HealthCheck.data_too_large,
                                          HealthCheck.large_base_example],
